@@ -40,12 +40,26 @@ type traceOut struct {
 }
 
 func normHist(h []map[string]any) []string {
-	// JSON numbers arrive as float64; re-marshal through canonical form
-	out := make([]string, len(h))
-	for i, e := range h {
-		out[i] = vh.CanonEv(e)
+	// JSON numbers arrive as float64; re-marshal through canonical form. The Buf observation (largest matching
+	// buffer) is not part of the model's history: it is judged separately (bufOK / clause B3).
+	out := make([]string, 0, len(h))
+	for _, e := range h {
+		if e["e"] == "Buf" {
+			continue
+		}
+		out = append(out, vh.CanonEv(e))
 	}
 	return out
+}
+
+// bufOK: the largest matching buffer stayed within the limit plus one prefetch chunk
+func bufOK(h []vh.Ev) bool {
+	for _, e := range h {
+		if e["e"] == "Buf" && e["n"].(int) > 8192+2048-1 {
+			return false
+		}
+	}
+	return true
 }
 
 func toGeneric(h []vh.Ev) []map[string]any {
@@ -103,7 +117,7 @@ func init() {
 						Run: map[string]any{"slen": b.Slen * *scale, "endKind": b.EndKind, "predicted": b.Hist, "scale": *scale, "ambiguous": b.Amb}})
 				}
 				scaled, ok := vh.ScaleHist(hist, *scale)
-				if ok && reflect.DeepEqual(normHist(toGeneric(scaled)), pred) {
+				if ok && bufOK(hist) && reflect.DeepEqual(normHist(toGeneric(scaled)), pred) {
 					atomic.AddInt64(&same, 1)
 					if i%20011 == 0 && rep == 0 {
 						mu.Lock()
